@@ -1,4 +1,4 @@
-// Command check (group "wsvc"): bounded-exhaustive input products against reference models.
+// Command check (group "wsvc"): wallet service explicit-state search (C19) and crash-image enumeration of wallet / kv saves (C20).
 package main
 
 import (
@@ -6,6 +6,8 @@ import (
 	"io"
 	"log"
 	"os"
+
+	"github.com/skycoin/skycoin/src/util/logging"
 
 	"verif/engine"
 )
@@ -21,6 +23,8 @@ func register(id, level string, f func(r *engine.Run)) {
 
 func main() {
 	log.SetOutput(io.Discard) // the code under test logs through the std logger on boundary inputs
+	logging.Disable()
+	initFixture()
 	if len(os.Args) >= 3 && os.Args[1] == "--worker" {
 		w, ok := workers[os.Args[2]]
 		if !ok {
